@@ -48,10 +48,11 @@ Definition short_ok (old s : str) : bool :=
 Definition env_ok (old e : str) : bool := is_empty old || (if str_eq_dec old e then true else false).
 Definition s_setter (x : setter) (o : obj) : option obj :=
   match x with
-  | SShort s => if short_ok (o_short o) s then Some (mkObj s (o_env o) (o_metavar o) (o_default o)) else None
-  | SEnv e => if env_ok (o_env o) e then Some (mkObj (o_short o) e (o_metavar o) (o_default o)) else None
-  | SMetavar m => if is_empty m then None else Some (mkObj (o_short o) (o_env o) m (o_default o))
-  | SDefault => Some (mkObj (o_short o) (o_env o) (o_metavar o) true)
+  | SShort s => if short_ok (o_short o) s then Some (mkObj s (o_env o) (o_metavar o) (o_default o) (o_optional o)) else None
+  | SEnv e => if env_ok (o_env o) e then Some (mkObj (o_short o) e (o_metavar o) (o_default o) (o_optional o)) else None
+  | SMetavar m => if is_empty m then None else Some (mkObj (o_short o) (o_env o) m (o_default o) (o_optional o))
+  | SDefault => Some (mkObj (o_short o) (o_env o) (o_metavar o) true (o_optional o))
+  | SOptional => Some (mkObj (o_short o) (o_env o) (o_metavar o) (o_default o) true)
   end.
 
 (* letters in use, with multiplicity *)
@@ -61,7 +62,7 @@ Fixpoint nodupb (l : list str) : bool :=
   match l with [] => true | x :: r => (if in_dec str_eq_dec x r then false else true) && nodupb r end.
 Definition s_consistent (ss : sstate) : bool := nodupb (letters (s_decls ss)).
 Definition needs_value (x : objid * obj) : bool :=
-  match id_kind (fst x) with KToggle => false | _ => negb (o_default (snd x)) end.
+  match id_kind (fst x) with KToggle => false | _ => negb (o_default (snd x) || o_optional (snd x)) end.
 Definition s_parse (ss : sstate) : presult :=
   if negb (s_consistent ss) then PDev else if existsb needs_value (s_decls ss) then PUser else POk.
 
